@@ -629,3 +629,66 @@ func (d *decodeCtx) LEQ(a, bb ssa.Value, blk *ssa.BasicBlock) bool {
 	}
 	return false
 }
+
+// cellWriters lists the instructions that can write a local cell: direct
+// stores and calls that receive its address (also boxed into a varargs array).
+// escapes is true when the address is used in a way that is not understood.
+func cellWriters(cell *ssa.Alloc) (writers []ssa.Instruction, escapes bool) {
+	var collect func(addr ssa.Value)
+	collect = func(addr ssa.Value) {
+		for _, u := range usesOf(addr) {
+			switch x := u.(type) {
+			case *ssa.Store:
+				if x.Addr == addr {
+					writers = append(writers, x)
+				} else if ia, ok := x.Addr.(*ssa.IndexAddr); ok && isVarargsArray(ia.X) {
+					found := false
+					for _, su := range usesOf(ia.X) {
+						if sl, ok := su.(*ssa.Slice); ok {
+							for _, cu := range usesOf(sl) {
+								if ci, ok := cu.(ssa.CallInstruction); ok {
+									writers = append(writers, ci)
+									found = true
+								}
+							}
+						}
+					}
+					if !found {
+						escapes = true
+					}
+				} else {
+					escapes = true
+				}
+			case *ssa.UnOp, *ssa.DebugRef:
+			case ssa.CallInstruction:
+				writers = append(writers, x)
+			case *ssa.MakeInterface, *ssa.ChangeType, *ssa.Convert:
+				collect(x.(ssa.Value))
+			default:
+				escapes = true
+			}
+		}
+	}
+	collect(cell)
+	return
+}
+
+// loadsAfterAllWrites: both loads of the cell happen after every possible
+// write of it, so they yield the same value.
+func loadsAfterAllWrites(cell *ssa.Alloc, l1, l2 ssa.Instruction) bool {
+	ws, esc := cellWriters(cell)
+	if esc {
+		return false
+	}
+	for _, w := range ws {
+		if w.Parent() != l1.Parent() {
+			return false
+		}
+		for _, l := range []ssa.Instruction{l1, l2} {
+			if !instrDominates(w, l) || instrReaches(l, w) {
+				return false
+			}
+		}
+	}
+	return true
+}
